@@ -259,7 +259,8 @@ func (g *Gen) extras(n *Node, inObject bool, allowConst bool) {
 
 func (g *Gen) note(n *Node) {
 	if g.Rng.IntN(4) == 0 {
-		n.Note = pick(g.Rng, []string{"the id", "Name of the product.", "a note, with: punctuation; and (brackets)", "x", "note \"quoted\"", "unicode é note", "{not rules}", "dash - inside"})
+		n.Note = pick(g.Rng, []string{"the id", "Name of the product.", "a note, with: punctuation; and (brackets)", "x", "note \"quoted\"", "unicode é note", "{not rules}", "dash - inside",
+			"poza liczbą", "déjà", "ух", "Р", "ok 😅", "日本", "a // b", "50% /* off", "tab\there", "trailing dot."})
 		if strings.HasPrefix(n.Note, "{") && (n.HasRules || len(n.Rules) > 0) == false {
 			n.Note = "n " + n.Note // a note-only annotation must not begin like a rule object
 		}
